@@ -42,6 +42,9 @@ def throttle_trace(wd, V, thr):
     if thr.get("redialled", 0) < thr.get("dropped", 0):
         V.violation("%d servers ended their sessions, the retrying client connected again to %d of them within 10 s" % (thr["dropped"], thr["redialled"]),
                     {k: v for k, v in thr.items() if k != "trace"})
+    elif thr.get("held", 0) < thr.get("redialled", 0):
+        V.violation("the retrying client connected again to %d servers whose sessions had ended, 1.6 s later only %d of the new sessions are still up" %
+                    (thr["redialled"], thr["held"]), {k: v for k, v in thr.items() if k != "trace"})
     mod = ("---- MODULE GThr ----\nEXTENDS ThrottleTrace\nGServers == 1..%d\nGLive == %d..%d\n====\n" % (nfail + n, nfail + 1, nfail + n))
     def validate(name, tr):
         vlib.write_ndjson(os.path.join(wd, name), tr)
